@@ -1193,6 +1193,27 @@ struct Engine
                 no_alloc("move-construction");
                 same_objects(o.a[0], o.a[1], SIZE_MAX, "move-construction");
                 break;
+            case O_MA:
+                // C08: between unequal non-propagating allocators the elements are transferred one by one - exactly one
+                // move construction per stored non-trivial object, no copy, into memory of the target's allocator
+                if constexpr (!TR::ae && !TR::mc && LS::HAS_TRACKED)
+                {
+                    const int src = o.a[0], dst = o.a[1];
+                    if (src != dst && m[src].arena != m[dst].arena && !pre.moved[src])
+                    {
+                        std::size_t expected = 0;
+                        for (auto& e : m[dst].el) expected += LS::tracked_objects(e);
+                        if (R().move_ctor != expected || R().copy_ctor != 0)
+                            report("C08", "allocator", "unequal-move-assign:transfer",
+                                   "move assignment between unequal allocators made %lu move and %lu copy constructions for %zu "
+                                   "stored objects",
+                                   R().move_ctor, R().copy_ctor, expected);
+                        if (post.block[dst] >= 0 && post.block[dst] == pre.block[src])
+                            report("C08", "allocator", "unequal-move-assign:stole-block",
+                                   "move assignment between unequal allocators took over the source's block");
+                    }
+                }
+                break;
             default:
                 break;
         }
